@@ -308,7 +308,7 @@ func readRecords(path string) ([]record, error) {
 func replayOnce(bin, file string, gomaxprocs int) (*record, error) {
 	outp := file + fmt.Sprintf(".out.%d.%d", os.Getpid(), time.Now().UnixNano())
 	defer os.Remove(outp)
-	env := []string{"VERIF_ENGINE=" + engineOfReplay(file), "VERIF_REPLAY=" + file, "VERIF_OUT=" + outp,
+	env := []string{"VERIF_ENGINE=" + engineOfReplay(file), "VERIF_REPLAY=" + file, "VERIF_OUT=" + outp, "VERIF_DICT=" + filepath.Join(filepath.Dir(bin), "dict.json"),
 		"GORACE=halt_on_error=0 log_path=" + outp + ".race", "VERIF_RACELOG=" + outp + ".race"}
 	defer func() {
 		if ms, _ := filepath.Glob(outp + ".race*"); ms != nil {
@@ -404,7 +404,7 @@ func check(prop, tier string) int {
 			first := seed*1_000_000_000 + uint64(w)*chunk
 			outp := filepath.Join(work, fmt.Sprintf("w%d.jsonl", w))
 			env := []string{"VERIF_ENGINE=" + spec.Engine, fmt.Sprintf("VERIF_SEEDS=%d:%d", first, chunk), "VERIF_OUT=" + outp,
-				"VERIF_TIER=" + tier, fmt.Sprintf("VERIF_DEADLINE=%d", deadline.Unix()), "GOMAXPROCS=2"}
+				"VERIF_TIER=" + tier, fmt.Sprintf("VERIF_DEADLINE=%d", deadline.Unix()), "GOMAXPROCS=2", "VERIF_DICT=" + filepath.Join(work, "dict.json")}
 			if spec.Race {
 				rl := filepath.Join(work, fmt.Sprintf("race.w%d", w))
 				env = append(env, "GORACE=halt_on_error=0 log_path="+rl, "VERIF_RACELOG="+rl)
@@ -541,7 +541,7 @@ func check(prop, tier string) int {
 				sem <- struct{}{}
 				defer func() { <-sem }()
 				outp := filepath.Join(work, fmt.Sprintf("det%d.jsonl", i))
-				env := []string{"VERIF_ENGINE=" + spec.Engine, fmt.Sprintf("VERIF_SEEDS=%d:1", rec.Seed), "VERIF_OUT=" + outp, "VERIF_TIER=" + tier,
+				env := []string{"VERIF_ENGINE=" + spec.Engine, fmt.Sprintf("VERIF_SEEDS=%d:1", rec.Seed), "VERIF_OUT=" + outp, "VERIF_TIER=" + tier, "VERIF_DICT=" + filepath.Join(work, "dict.json"),
 					fmt.Sprintf("GOMAXPROCS=%d", []int{1, 4, 16}[i%3]), "GORACE=halt_on_error=0 log_path=" + outp + ".race", "VERIF_RACELOG=" + outp + ".race"}
 				_, errb, err := runWorker(bin, env, 10*time.Minute)
 				recs, _ := readRecords(outp)
@@ -691,7 +691,7 @@ func aggregate(spec *checkSpec, prop, tier string, seed uint64, all []record, is
 		"real_components":                realCommon,
 		"stub_components":                stubCommon,
 		"instrumentation": map[string]interface{}{"files": ist.Files, "import_swaps": ist.ImportSwaps, "go_statements": ist.GoStmts, "map_ranges": ist.MapRanges,
-			"map_range_key_types": ist.MapRangeKeys, "pointer_key_stamps": ist.Stamps, "function_entry_yields": ist.Yields, "reinit_vars": ist.ReinitVars},
+			"map_range_key_types": ist.MapRangeKeys, "pointer_key_stamps": ist.Stamps, "function_entry_yields": ist.Yields, "reinit_vars": ist.ReinitVars, "channel_ops": ist.ChanOps, "selects": ist.Selects, "auto_dictionary_strings": ist.DictStrings, "auto_dictionary_ints": ist.DictInts},
 		"exhaustive": false,
 	}
 	return map[string]interface{}{
